@@ -140,6 +140,7 @@ def dedup(d):
 ENTRY = {
     "json": ("json", "kc_json"), "jsonreader": ("json", "kc_json"), "jsonmap": ("json", "kc_json"),
     "yaml": ("json", "kc_json"), "toml": ("json", "kc_json"), "httpx-json": ("json", "kc_json"),
+    "yamlreader": ("json", "kc_json"), "tomlbytes": ("json", "kc_json"), "keyvaluer": ("key", "kc_json"),
     "key": ("key", "kc_json"),
     "header": ("header", "kc_header"), "httpx-header": ("header", "kc_header"),
     "form": ("form", "kc_form"), "httpx-form": ("form", "kc_form"),
@@ -151,7 +152,7 @@ ENTRY = {
 }
 PASS_KC = {"path": "kc_path", "form": "kc_form", "header": "kc_header", "json": "kc_json"}
 PARSE_ORDER = ["path", "form", "header", "json"]      # rest/httpx.Parse
-TEXT_MODES = ("json", "jsonreader", "yaml", "toml", "httpx-json", "ojson")
+TEXT_MODES = ("json", "jsonreader", "yaml", "toml", "httpx-json", "ojson", "yamlreader", "tomlbytes")
 STRING_TAGS = ("form", "path", "header")
 
 
@@ -169,12 +170,15 @@ def is_multi(t):
     return any(f.get("tags") is not None or is_multi(f["t"]) for f in t["f"])
 
 
-def view_type(t, tag):
+def view_type(t, tag, top=True):
     """the struct type as the unmarshaller for `tag` sees it: fields tagged otherwise are skipped
-    (usingDifferentKeys), the others carry the key and options of that tag"""
+    (usingDifferentKeys), the others carry the key and options of that tag.  Below the top level a
+    member tagged otherwise still counts when go-zero decides whether an ABSENT struct value is
+    required (implicitValueRequiredStruct answers yes at once): it is kept as a scalar field with
+    the key "-", which is exactly that — skipped when read, required when absent."""
     k = t["k"]
     if k in ("ptr", "slice", "map"):
-        return {"k": k, "e": view_type(t["e"], tag)}
+        return {"k": k, "e": view_type(t["e"], tag, top)}
     if k != "struct":
         return t
     fs = []
@@ -182,40 +186,46 @@ def view_type(t, tag):
         tags = f.get("tags")
         if tags is None:
             g = dict(f)
-            g["t"] = view_type(f["t"], tag)
+            g["t"] = view_type(f["t"], tag, False)
             fs.append(g)
             continue
         if tag not in tags:
+            if not top:
+                if deref(f["t"])["k"] not in KINDS:
+                    raise ValueError("a member tagged for other kinds must be a scalar")
+                fs.append({"key": "-", "o": None, "t": f["t"]})
             continue
         ts = tags[tag]
-        g = {"key": ts["key"], "o": ts.get("o"), "t": view_type(f["t"], tag)}
+        g = {"key": ts["key"], "o": ts.get("o"), "t": view_type(f["t"], tag, False)}
         if f.get("anon"):
             g["anon"] = True
         fs.append(g)
     return {"k": "struct", "f": fs}
 
 
-def project_val(t, tag, v, drop=()):
+def project_val(t, tag, v, drop=(), top=True):
     """the dumped value restricted to the fields that the unmarshaller for `tag` sees"""
     if v is None:
         return None
     k = t["k"]
     if k == "ptr":
-        return v if "z" in v else {"p": project_val(t["e"], tag, v["p"])}
+        return v if "z" in v else {"p": project_val(t["e"], tag, v["p"], drop, top)}
     if k == "slice":
-        return v if "z" in v else {"l": [project_val(t["e"], tag, e) for e in v["l"]]}
+        return v if "z" in v else {"l": [project_val(t["e"], tag, e, (), top) for e in v["l"]]}
     if k == "map":
-        return v if "z" in v else {"m": [[kk, project_val(t["e"], tag, e)] for kk, e in v["m"]]}
+        return v if "z" in v else {"m": [[kk, project_val(t["e"], tag, e, (), top)] for kk, e in v["m"]]}
     if k != "struct":
         return v
     out = []
     for i, (f, x) in enumerate(zip(t["f"], v["st"])):
         tags = f.get("tags")
         if tags is not None and tag not in tags:
+            if not top:
+                out.append(x)
             continue
         if i in drop:
             continue
-        out.append(project_val(f["t"], tag, x))
+        out.append(project_val(f["t"], tag, x, (), False))
     return {"st": out}
 
 
@@ -916,9 +926,9 @@ def finish(c):
         c["doc"] = sanitize_string_doc(mode, c.get("doc"))
     if mode in TEXT_MODES:
         if "raw" not in c:
-            if mode == "yaml":
+            if mode in ("yaml", "yamlreader"):
                 c["raw"] = yaml_text(c["doc"], bool(c.get("block")))
-            elif mode == "toml":
+            elif mode in ("toml", "tomlbytes"):
                 c["raw"] = toml_text(c["doc"])
             else:
                 c["raw"] = raw_json(c["doc"])
@@ -1501,6 +1511,22 @@ def dotted(rng):
             one(mode, [F(keym, t)], dobj([(a, dobj([(m1, copy.deepcopy(inner_v))])), (m1, copy.deepcopy(outer_v))]))
             one(mode, [F(keym, t)], dobj([(a, dobj([(m1, copy.deepcopy(inner_v))]))]))
             one(mode, [F(keym, t)], dobj([(a, dobj([])), (m1, copy.deepcopy(outer_v))]))
+    for mode in ("json", "key"):
+        a, m1 = fresh("a"), fresh("m")
+        keym = "%s.%s" % (a, m1)
+        # the outer scope holds a scalar under the name of the inner object: nothing to complete from
+        one(mode, [F(keym, Mp(i))], dobj([(a, dobj([(m1, dobj([("x", dn("1"))]))])), (m1, dn("5"))]))
+        one(mode, [F(keym, Mp(i))], dobj([(a, dobj([(m1, dobj([("x", dn("1"))]))])), (m1, NULL)]))
+        # keys made of dots only have no segment at all: never found
+        for key in (".", "..", "..."):
+            for o in (O(opt=True), None, O(**{"def": "4"})):
+                one(mode, [F(key, i, copy.deepcopy(o)), F(a, i, O(opt=True))], dobj([(key, dn("3")), (a, dn("1"))]))
+                one(mode, [F(key, i, copy.deepcopy(o))], dobj([]))
+    for mode in ("form", "path", "okey"):
+        for key in (".", "..", "a."):
+            v = scalar_for(mode, "3")
+            one(mode, [F(key, i, O(opt=True, range=R("[1:2]")))], dobj([(key, v)]))
+            one(mode, [F(key, i, O(opt=True, range=R("[1:5]")))], dobj([(key, v)]))
     # "-": the field is skipped whatever the document holds (its tag is still parsed, its dependency resolved)
     for mode in ("json", "form", "path", "header", "key", "httpx-form"):
         z = fresh("z")
@@ -1564,6 +1590,39 @@ def tagsyntax(rng):
                     if rng.random() < 0.5:
                         pairs.append(("b", scalar_for(mode, "1")))
                     cases.append(finish({"mode": mode, "type": St(*copy.deepcopy(fields)), "doc": dobj(pairs), "intent": "tag-" + style}))
+    # tags go-zero refuses: every unmarshal of the struct fails, whatever the document holds
+    bad_range = {"li": True, "l": None, "r": None, "ri": True}      # the model's ill-formed range
+    malformed = ["range=", "range=1:5", "range=[1:5", "range=1:5]", "range=[1:2:3]", "range=[:]", "range=[x:5]", "range=[1:y]",
+                 "range=[5:1]", "range=(2:2]", "range=[2:2)", "range=[1]", "range=[", "optional=b=c", "default=x=y",
+                 "options=a=b", "range=[1:5]=", "env=A=B", "range", "default", "options"]
+    for mi, bad in enumerate(malformed):
+        mode = ["json", "form", "key", "header", "path", "httpx-json"][mi % 6]
+        o = O(range=dict(bad_range))
+        fa = F("a", P("int"), o)
+        fa["raw"] = "a," + bad + rng.choice(["", ",optional", ",default=3"])
+        if "optional" in fa["raw"]:
+            o["opt"] = True
+        if "default=3" in fa["raw"]:
+            o["def"] = "3"
+        fb = F("b", P("int"), O(opt=True))
+        for pairs in ([("a", scalar_for(mode, "3"))], [], [("b", scalar_for(mode, "1"))]):
+            cases.append(finish({"mode": mode, "type": St(copy.deepcopy(fb), copy.deepcopy(fa)), "doc": dobj(pairs), "intent": "tag-malformed"}))
+        if mode in ("json", "key"):
+            # inside a struct field that the document leaves out / supplies
+            inner = St(copy.deepcopy(fa), F("c", P("int"), O(opt=True)))
+            for outer_o in (None, O(opt=True)):
+                for pairs in ([], [("s", dobj([]))], [("s", dobj([("a", dn("3"))]))]):
+                    cases.append(finish({"mode": mode, "type": St(F("s", copy.deepcopy(inner), copy.deepcopy(outer_o))), "doc": dobj(pairs),
+                                         "intent": "tag-malformed"}))
+    # escapes: a comma inside a default, inside bracketed options
+    for mode in ("json", "form", "key"):
+        fa = F("a", P("string"), O(**{"def": "x,y"}))
+        fa["raw"] = tag_text("a", fa["o"])
+        fo = F("o", P("string"), O(opt=True, options=["p,q", "r"]))
+        fo["raw"] = "o,optional,options=[p\\,q,r]"
+        for pairs in ([], [("a", scalar_for(mode, "z"))], [("o", ds("p,q") if mode != "form" else {"a": [ds("p,q")]})],
+                      [("o", ds("p") if mode != "form" else {"a": [ds("p")]})]):
+            cases.append(finish({"mode": mode, "type": St(copy.deepcopy(fa), copy.deepcopy(fo)), "doc": dobj(pairs), "intent": "tag-escape"}))
     # an empty alternative among the options; options with spaces and non-ASCII letters
     for mode in ("json", "key", "path", "header"):
         for opts in (["x", "", "y"], ["a b", "\u00fc", "\u4e2d"], ["", "z"], ["1", "1.0", "+1"]):
@@ -1595,6 +1654,8 @@ def boundaries(rng, n):
         # floats: only literals that print back exactly (<= 15 significant digits, <= 6 for float32)
         if kind not in FLOAT_KINDS:
             return True
+        if "_" in txt or "x" in txt.lower() and txt.lower() != "+infinity x":
+            return False     # strconv.ParseFloat's underscore / hexadecimal syntax is outside the model
         try:
             d = Decimal(txt.strip().lstrip("+"))
         except Exception:
@@ -1633,11 +1694,48 @@ def frontends(rng, n):
         d = c.get("doc")
         if d is None or "o" not in d:
             continue
-        mode = rng.choice(["yaml", "yaml", "toml", "toml", "jsonreader", "jsonmap"])
-        if mode in ("yaml", "toml") and not tame(d):
+        mode = rng.choice(["yaml", "yamlreader", "toml", "tomlbytes", "jsonreader", "jsonmap", "keyvaluer"])
+        if mode in ("yaml", "toml", "yamlreader", "tomlbytes") and not tame(d):
+            continue
+        if mode == "keyvaluer":
+            c2 = g.case(mode="key", depth=rng.choice([0, 1, 1, 2]))
+            if c2.get("doc") is None or "o" not in c2["doc"]:
+                continue
+            cases.append(finish({"mode": "keyvaluer", "type": c2["type"], "doc": c2["doc"], "intent": "frontend-keyvaluer"}))
             continue
         c = {"mode": mode, "type": c["type"], "doc": d, "intent": "frontend-" + mode, "block": rng.random() < 0.5}
         cases.append(finish(c))
+    return cases
+
+
+def broken_texts():
+    """texts the YAML / TOML / JSON decoders refuse: an error, never a panic, never a success"""
+    i = P("int")
+    t = St(F("a", i, O(opt=True)))
+    cs = []
+    for mode, raws in (("yaml", ["a: [1", "a: 1\n b: 2", "\t a: 1", "a: &x 1\nb: *y", "{a: 1"]),
+                       ("yamlreader", ["a: [1", "{"]),
+                       ("toml", ["a = ", "a = 1\na = 2", "[t\na = 1", "a = 1e", "= 1"]),
+                       ("tomlbytes", ["a = ", "a == 1"]),
+                       ("jsonreader", ["{\"a\":", "", "{\"a\" 1}"]), ("ojson", ["{", "nul"])):
+        for raw in raws:
+            cs.append(finish({"mode": mode, "type": copy.deepcopy(t), "raw": raw, "doc": None, "intent": "broken-text"}))
+    return cs
+
+
+def self_validating(rng):
+    """a declared type with a Validate method (harness selfReq): httpx.Parse runs it after the passes"""
+    t = St(multi("a", P("int"), {"form": O(range=R("[1:5]"))}), multi("b", P("string"), {"json": O(opt=True)}),
+           multi("c", Ptr(P("int8")), {"header": O(opt=True, options=["1", "2"])}))
+    cases = []
+    for a in ("3", "9", None):
+        for b in ("fine", "bad", None):
+            for c in ("2", "5", None):
+                rq = {"form": dobj([("a", ds(a))] if a is not None else []),
+                      "header": dobj([("c", ds(c))] if c is not None else []),
+                      "bodydoc": dobj([("b", ds(b))]) if b is not None else None}
+                cases.append(finish({"mode": "parse", "type": copy.deepcopy(t), "req": rq, "static": "self",
+                                     "self_validator": "reject" if b == "bad" else "accept", "intent": "self-validating"}))
     return cases
 
 
@@ -1829,12 +1927,14 @@ class C08(Property):
         cases = crosskind(rng, 40 if not big else 400)
         cases += sequences(rng, 120 if not big else 1200)
         cases += parse_cases(rng, 250 if not big else 3000)
+        cases += self_validating(rng)
         if tier in ("quick", "thorough"):
             cases += systematic(rng)
             cases += dotted(rng)
             cases += tagsyntax(rng)
         cases += boundaries(rng, 500 if not big else 6000)
         cases += frontends(rng, 150 if not big else 1500)
+        cases += broken_texts()
         g = Gen(rng, "thorough" if tier == "thorough" else "quick")
         for _ in range(n):
             cases.append(g.case())
@@ -1848,7 +1948,7 @@ class C08(Property):
                         "steps": [wire(st, j) for j, st in enumerate(c["steps"])]}
             w = {"id": i, "mode": c["mode"], "type": c["type"], "doc": c.get("doc"), "raw": c.get("raw"),
                  "direct": bool(c.get("direct")), "pad": int(c.get("pad") or 0), "repeat": c.get("repeat"),
-                 "validator": c.get("validator"), "ctype": c.get("ctype")}
+                 "validator": c.get("validator"), "ctype": c.get("ctype"), "static": c.get("static") or ""}
             if c["mode"] == "parse":
                 rq = c["req"]
                 w["req"] = {"path": rq.get("path"), "form": rq.get("form"), "header": rq.get("header"),
@@ -1897,7 +1997,7 @@ class C08(Property):
             val = "None" if p["val"] is None or obs["verdict"] != "ok" else "(Some %s)" % cval(p["val"])
             ps.append("mkOPass (mkPass %s %s %s) %s" % (p["kc"], cfields(p["type"]["f"]), doc, val))
         verdict = {"ok": "VOk", "error": "VErr", "panic": "VPanic"}[obs["verdict"]]
-        vd = case.get("validator")
+        vd = case.get("validator") or case.get("self_validator")
         validator = "None" if vd is None else "(Some %s)" % cbool(vd == "accept")
         return "mkOCall %s %s %s %s" % (clist(ps), validator, cbool(bool(obs.get("called"))), verdict)
 
